@@ -290,6 +290,29 @@ func (w *World) LiveLinks() []*Link {
 	return out
 }
 
+// forgeErrorAck: a malicious consumer binary answers a validator-set-change packet with an error acknowledgement.
+// The acknowledgement the honest module wrote is replaced in the consumer's IBC store (committed with its next block) and
+// relayed to the provider with a genuine proof. Returns false when no undelivered VSC acknowledgement is waiting.
+func (w *World) forgeErrorAck(l *Link) bool {
+	for _, f := range l.AcksToProv {
+		p := f.Packet
+		if f.Done || p.SourcePort != "provider" || p.DestinationPort != "consumer" {
+			continue
+		}
+		bz := channeltypes.NewErrorAcknowledgement(fmt.Errorf("malicious consumer refuses the validator set")).Acknowledgement()
+		l.C.CApp.IBCKeeper.ChannelKeeper.SetPacketAcknowledgement(l.C.WriteCtx(), p.DestinationPort, p.DestinationChannel, p.Sequence, channeltypes.CommitAcknowledgement(bz))
+		if l.C.Rec != nil {
+			l.C.Rec.Tainted = true
+		}
+		f.Ack = bz
+		f.Height = l.C.Height() + 1 // provable once the consumer's next block is committed
+		w.Op("malicious consumer %s: error acknowledgement for VSC packet seq=%d", l.CID, p.Sequence)
+		w.Event("_tx", "forged-error-ack")
+		return true
+	}
+	return false
+}
+
 // ConsumersStep advances every live consumer by one block according to its relay schedule.
 func (w *World) ConsumersStep() {
 	for _, l := range w.LiveLinks() {
@@ -309,6 +332,9 @@ func (w *World) ConsumersStep() {
 			l.Starved = true
 			w.Op("relayer starves consumer %s from now on", l.CID)
 			mode = 3
+		}
+		if w.Cfg.ErrAckStep > 0 && w.Step >= w.Cfg.ErrAckStep-8 && !w.errAckDone && mode != 3 {
+			mode = 0 // keep traffic flowing so that an acknowledgement is there to be forged
 		}
 		switch mode {
 		case 3: // nothing is delivered any more (packets will time out)
@@ -338,6 +364,10 @@ func (w *World) ConsumersStep() {
 			extra, opts = w.consumerExtra(l)
 		}
 		w.ConsumerStep(l, n, a, extra, opts)
+		// right after the block that wrote an acknowledgement, before the relayer picks it up
+		if w.Cfg.ErrAckStep > 0 && w.Step >= w.Cfg.ErrAckStep && !w.errAckDone && ci != nil && ci.StarveAt == 0 && !l.Starved && l.ProvChan != "" {
+			w.errAckDone = w.forgeErrorAck(l)
+		}
 	}
 }
 
